@@ -1,5 +1,6 @@
 import Sif.Proofs.C04
 import Sif.Proofs.C04Add
+import Sif.Proofs.C04Remove
 import Sif.Spec.C04
 import Sif.Model.Clp.Units
 /-
@@ -51,6 +52,20 @@ theorem backing_add_noswap_partial {P R A n e : Nat} {fS fB p : Dec} {u : UnitsR
     (h : calculatePoolUnits P R A n e fS fB p = .ok (some u)) :
     backingOK R A P (R + n) (A + e) u.poolUnits = true :=
   Sif.Clp.backing_add_noswap hR hA hY hX h
+
+/-- **Clause 4, removals by units (full for this message).**  Removing `w` of the pool's `P` units
+    (payouts as computed by `CalculateWithdrawalFromUnits`, which the handler refuses unless they are
+    below the depths) never lowers the backing per unit by more than the rounding dust — every pool,
+    every magnitude. -/
+theorem backing_removeUnits {Pu nD eD lu w n e left : Nat} (hw : 0 < w) (hwP : w ≤ Pu)
+    (hn : n ≤ nD) (he : e ≤ eD)
+    (h : calculateWithdrawalFromUnits Pu nD eD lu w = .ok (n, e, left)) :
+    backingOK nD eD Pu (nD - n) (eD - e) (Pu - w) = true :=
+  Sif.Clp.backing_removeUnits hw hwP hn he h
+
+/- non-vacuity: a removal whose quotients are rounded -/
+example : calculateWithdrawalFromUnits 3000000000000000007 1000000000000000001 2000000000000000003 3000000000000000007 1000000000000000000
+    = .ok (333333333333333333, 666666666666666666, 2000000000000000007) := by decide +kernel
 
 /- non-vacuity: a symmetric addition with a rounded-down unit quotient -/
 example : symmetryState 2000003 2000003 1000001 1000001 = .symmetric := by decide
